@@ -405,7 +405,12 @@ def _key_lifetime(ctx, plan, scratch):
                 new = ds.copy()
                 if names:
                     n = names[arg % len(names)]
-                    new[n] = (new[n].dims, numpy.asarray(new[n].values) * 0 + 7, dict(new[n].attrs))
+                    old_vals = numpy.asarray(new[n].values)
+                    if old_vals.dtype.kind in 'Mm':
+                        new_vals = old_vals + numpy.timedelta64(7, 's')
+                    else:
+                        new_vals = old_vals * 0 + 7
+                    new[n] = (new[n].dims, new_vals, dict(new[n].attrs))
                 record_key(add(new, cls))
             elif kind == 'slice_time':
                 new = ds.isel({tdim: slice(0, 1)}) if tdim in ds.sizes else ds.copy()
